@@ -17,6 +17,8 @@
        `Eq`, `Ord` (and `Hash`, `const_eq`, `Borrow<str>`) must be those of the contents.
        `OrdByForm` is the design switch for the derived-`Ord`-on-the-enum mistake (compare the
        storage discriminant first); MC_TextRepr_ordform.cfg shows `CompareByContent` notices.
+       `HeapLenFirst` is the switch for a length-first shortcut between two heap values
+       (MC_TextRepr_lenfirst.cfg).
 
    Content classes (bytes are chosen by the harness inside the class, seeded):
      empty     ""                               ident     [a-zA-Z][a-zA-Z0-9_]*
@@ -33,7 +35,8 @@ CONSTANTS MaxInline,      \* 22
           Lens,           \* byte lengths to try
           StaticLens,     \* lengths for which the harness has `text!`/`ident!` literals
           SkipValidate,   \* design switch: paths that skip validation
-          OrdByForm       \* design switch: Ord compares the storage form first
+          OrdByForm,      \* design switch: Ord compares the storage form first
+          HeapLenFirst    \* design switch: two heap values of different length compare by length
 
 Kinds == {"text", "ident"}
 Classes == {"empty", "ident", "digit0", "under0", "punct", "nonascii0", "nonascii",
@@ -75,12 +78,16 @@ Form(p, c) == IF p \in {"static", "default"} THEN "static"
 
 ----------------------------------------------------------------------------------
 (* comparison table *)
-Rels == {"same", "a_prefix_of_b", "b_prefix_of_a", "first_lt", "first_gt", "last_lt", "last_gt"}
+(* longer_lt / shorter_gt: the lengths differ and the content order is the opposite of the
+   length order (a longer but smaller; a shorter but greater) — a length-first "fast path"
+   gets exactly these wrong *)
+Rels == {"same", "a_prefix_of_b", "b_prefix_of_a", "first_lt", "first_gt", "last_lt", "last_gt",
+         "longer_lt", "shorter_gt"}
 CmpPaths == {"static", "from_str", "json", "postcard", "rkyv_from_bytes", "clone", "archived"}
 CmpClasses == {"ident", "nonascii"}            \* nonascii: byte order vs signed/char order
 
 Expected(rel) == CASE rel = "same" -> "eq"
-                   [] rel \in {"a_prefix_of_b", "first_lt", "last_lt"} -> "lt"
+                   [] rel \in {"a_prefix_of_b", "first_lt", "last_lt", "longer_lt"} -> "lt"
                    [] OTHER -> "gt"
 
 Pairs == { q \in [kind : Kinds, class : CmpClasses, len : Lens \ {0}, rel : Rels,
@@ -98,7 +105,13 @@ PairForm(p, len) == IF p = "archived" THEN "archived" ELSE Form(p, [class |-> "i
 Compare(q) ==
   LET fa == FormRank(PairForm(q.pa, q.len))
       fb == FormRank(PairForm(q.pb, q.len))
-  IN IF OrdByForm /\ fa # fb THEN (IF fa < fb THEN "lt" ELSE "gt") ELSE Expected(q.rel)
+      lenrel == CASE q.rel \in {"a_prefix_of_b", "shorter_gt"} -> "shorter"
+                  [] q.rel \in {"b_prefix_of_a", "longer_lt"} -> "longer"
+                  [] OTHER -> "same"
+  IN IF OrdByForm /\ fa # fb THEN (IF fa < fb THEN "lt" ELSE "gt")
+     ELSE IF HeapLenFirst /\ fa = 2 /\ fb = 2 /\ lenrel # "same"
+          THEN (IF lenrel = "shorter" THEN "lt" ELSE "gt")
+     ELSE Expected(q.rel)
 
 ----------------------------------------------------------------------------------
 VARIABLES mode,    \* "construct" | "compare"
